@@ -30,10 +30,12 @@ ReadVerdict(fmt, f, o) ==
   ELSE IF Len(o.rows) # Len(DataRows(f)) THEN "RowsDroppedOrAdded"
   ELSE IF \E r \in DOMAIN o.rows : o.rows[r] # SlotsOfRow(fmt, r) THEN "ValueInWrongSlot"
   ELSE IF fmt = "euroc" /\ ~o.ns_to_s THEN "NanosecondsNotConverted"
+  \* the pose matrices of the loaded object carry the rotation of the file's quaternion (w, x, y, z), whatever its norm
+  ELSE IF "rot_ok" \in DOMAIN o /\ ~o.rot_ok THEN "RotationNotOfTheQuaternion"
   ELSE "ok"
 
 \* transformation files: c = [enc (npy|txt|json), cls]; accepted iff cls is a valid SE(3)/Sim(3)
-ValidTransform(cls) == cls \in {"se3", "sim3", "sim3small", "sim3milli", "sim3kilo"}
+ValidTransform(cls) == cls \in {"se3", "sim3", "sim3small", "sim3milli", "sim3kilo", "se3int"}
 TransformVerdict(c, o) ==
   IF ValidTransform(c.cls) THEN (IF o.out # "ok" THEN "ValidTransformRejected" ELSE IF ~o.same THEN "TransformNotAsInFile" ELSE "ok")
   ELSE IF o.out = "FileInterfaceException" THEN "ok" ELSE IF o.out = "ok" THEN "InvalidTransformAccepted" ELSE "WrongErrorType"
